@@ -64,6 +64,11 @@ CLAIMED['C20'] = dict(
     note='Trusted: Coq kernel; the model is a hand-written rendering of the helpers\' try/catch and guard-object structure, tied by comparing, event by event, the log of the real allocate_unique<T>, allocate_unique<T[]> (plain and any_allocator) and allocate_shared on an instrumented leaf and on real pools/stacks for the complete range lengths 0..16 (thorough 0..64) x every failing index; joint_ptr creation, the joint_array constructors, clone_joint and move-with-allocator are checked by counters on the implementation (constructed = destroyed, none twice, memory balanced with matching parameters, exception propagated, allocator usable) rather than by event-list equality.',
     technique='Coq proof over an event-list model + exhaustive enumeration of (length, failing index) on the real helpers', ref='5 C20')
 
+CLAIMED['C13'] = dict(
+    text='(1) Lock table: the call shapes of every member of allocator_storage and of the locking proxy are regenerated from the class-template patterns on every run, and a computed obligation states that all eleven forwarding members (throwing, composable, size queries) declare their lock_guard before the forwarded call, nothing else forwards, lock() hands allocator and mutex to a proxy that locks on construction, unlocks on destruction iff it still owns and is emptied by a move. (2) Interleaving theorem: for any number of threads, any programs built from locking members and proxies with any number of passes, and any schedule, at most one thread is inside the wrapped allocator and it owns the mutex; with a single non-locking member the property is refuted.',
+    note='Partial w.r.t. the hardware memory model. Trusted: Coq kernel; the shape extractor (vlib/shapes.py over clang 14 JSON AST); std::mutex correctness and sequentially consistent interleaving of the model\'s atomic steps are assumed, not proved. Tie: instrumented mutex + instrumented wrapped allocator under 2..8 (16) real threads exercising every forwarding member and the proxy (also moved into a longer-lived object): entries must be by the owner and never overlap, and the recorded event trace must be a run of the model; a stateless allocator under the same threads must take no lock and the mutex selection traits are checked.',
+    technique='Coq proof over an interleaving model + computed obligation on a source-generated lock table + instrumented real threads', ref='5 C13')
+
 NOT_YET = {}
 
 checks = []
